@@ -538,7 +538,8 @@ Definition ins_U (r : rt) (e : elem) (p : panic) (s' : st) : Prop :=
 
 Lemma rt_insert_no_grow_spec e s :
   Inv R ES (s_rt s) -> rt_abs (s_rt s) !! ek e = None -> 0 < hgl (main (s_rt s)) ->
-  wp (rt_insert_no_grow c e) (fun _ s' => ins_post (s_rt s) e (s_rt s')) (ins_U (s_rt s) e) s.
+  wp (rt_insert_no_grow c e) (fun _ s' => ins_post (s_rt s) e (s_rt s'))
+     (fun p s' => ins_U (s_rt s) e p s' /\ p = PUser) s.
 Proof.
   intros HI Habs Hgl. pose proof HI as (HR & Hok & Ho).
   rewrite (rt_abs_lookup R ES) in Habs by exact HI.
@@ -568,7 +569,7 @@ Proof.
       split; [lia|]. destruct (lo (s_rt s3)) as [o3|].
       * destruct Hlo3 as (H1 & H2 & H3). rewrite N.min_l in H1 by lia. repeat split; [lia|exact H2|exact H3].
       * exact Hlo3.
-    + intros p s3 (HI3 & -> & Hsub). split; [exact HI3|]. split; [left; reflexivity|].
+    + intros p s3 (HI3 & -> & Hsub). split; [|reflexivity]. split; [exact HI3|]. split; [left; reflexivity|].
       etransitivity; [exact Hsub|]. cbn [s2 set_rt s_rt]. rewrite (abs_insert_main t t' (Some o) e Hel'). reflexivity.
   - wp_steps. unfold ins_post. cbn [set_rt s_rt main lo].
     split; [split; [exact HR|split; [exact Hok'|exact I]]|].
@@ -613,7 +614,7 @@ Proof.
            destruct Hlo2 as [Hn2 Hlo2]. destruct (lo (s_rt s2)) as [o2|].
            ++ destruct Hlo2 as (H1 & H2 & H3). rewrite N.min_l in Hn2 by lia. repeat split; [lia|lia|congruence|lia].
            ++ rewrite N.min_r in Hn2 by lia. split; lia.
-      * intros p s2 (HI2 & Hp & Hsub). split; [exact HI2|]. split; [|rewrite <- Habs1; exact Hsub].
+      * intros p s2 ((HI2 & Hp & Hsub) & _). split; [exact HI2|]. split; [|rewrite <- Habs1; exact Hsub].
         destruct Hp as [->|[-> Hp]]; [left; reflexivity|right; split; [reflexivity|congruence]].
     + intros s1 Hs1. apply frame0_use; [apply frame0_drop_elem|]. intros [] s2 Hs2.
       split; [rewrite Hs2, Hs1; exact HI|]. split; [right; split; [reflexivity|rewrite Hs2, Hs1; reflexivity]|].
@@ -621,7 +622,7 @@ Proof.
   - eapply wp_conseq; [apply rt_insert_no_grow_spec; [exact HI|exact Habs|lia]| |].
     + intros [] s1 Hp. unfold insert_post. pose proof Hp as (H1 & H2 & H3).
       split; [exact H1|]. split; [exact H2|]. split; [intros _; exact Hp|intros; lia].
-    + auto.
+    + intros p s1 [H _]. exact H.
 Qed.
 
 
